@@ -1,8 +1,8 @@
 (* drv_patch.ml — JSON Patch domain (C13).  Line: "<mode i|c> <target jvtext> <patch jvtext>".
    Observation (see harness/drv_patch.c):
-     <rc> <errno_code> <idx> <dump of *base> P= C<=|-> S0:0:0 END 0
+     <rc> <errno_code> <idx> <dump of *base> P= C<=|-> S0:0:0 R= END 0
    The pure model has copy semantics: the patch document and the copy source are never
-   written, nothing is shared, nothing leaks — those tokens are constants here and are what
+   written, nothing is shared, the document stays the caller's (R=), nothing leaks — those tokens are constants here and are what
    the implementation is held to. *)
 open Model
 open Util
@@ -21,7 +21,7 @@ let run line =
       | PArgs -> "-1 EFAULT MAX " ^ (if mode = "i" then Jvtext.string_of_jv target else "n")
       | PUB -> "UB ? ? ?" in
     let p = if pdoc' = pdoc then "P=" else "P!" ^ Jvtext.string_of_jv pdoc' in
-    head ^ " " ^ p ^ (if mode = "i" then " C-" else " C=") ^ " S0:0:0 END 0"
+    head ^ " " ^ p ^ (if mode = "i" then " C-" else " C=") ^ " S0:0:0 R= END 0"
   | _ -> failwith "patch line"
 
 let () = register "patch" run
